@@ -176,7 +176,7 @@ def main():
         "hooks": {
             "guard": "MIR_VERIF",
             "enable": "harnesses #include the real translation units and are compiled (goto-cc / gcc) with -DMIR_VERIF; the library build itself never defines it",
-            "baseline_off_cmd": "cmake --build /repo/_build -j8 && ctest --test-dir /repo/_build -j8 --timeout 900",
+            "baseline_off_cmd": "cmake --build /repo/_build -j8 -- -k 0 ; ctest --test-dir /repo/_build -j8 --timeout 900",
             "source_commits": hooks,
             "add_only": True,
         },
